@@ -135,12 +135,18 @@ def evaluate(run, lines, meta, exe, drv):
             items = o[2][1:]
             oks = []
             end = 'clean'
+            late = 0
             for x in items:
                 if tag(x) == 'ok' and end == 'clean':
                     oks.append(show(canon(x[1])))
+                elif tag(x) == 'ok':
+                    late += 1           # a caller that keeps iterating after Some(Err(_)) (a plain for loop does)
                 else:
                     end = 'err'
             obs = ('ok' if tag(o[1]) == 'ok' else 'open-err', oks, end)
+            if late:
+                run.fail('values-after-error', '%s: %d values were delivered AFTER the error was reported (the reader must stop)' % (what, late), case)
+                continue
         if obs != exp:
             if exp[0] == 'ok' and obs[0] == 'ok' and obs[1] == exp[1] and exp[2] == 'err' and obs[2] == 'clean':
                 cls = 'damage-not-reported'
